@@ -26,7 +26,9 @@ FULL = {
     "sigma": [";", "a", "0", " ", ".", "-", "é", ","],
     "L": 4,
 }
-DOC_SAMPLES = ["40.741894;-73.989311;12", "55.722526;13.017972;18", "a;b", ";", ";;", "x;", ";x"]
+DOC_SAMPLES = ["40.741894;-73.989311;12", "55.722526;13.017972;18", "a;b", ";", ";;", "x;", ";x",
+               # characters that mean something to csv / shell / format-string / regex machinery a decoder might be built on
+               '"on"', '"', 'a;"b";c', '"1;2"', 'say "hi"', "'x'", "a,b", "a\\;b", "{0}", "{}", "%s", "%(a)s", "a|b", "a\tb", "x" * 200]
 
 
 def payloads(alpha: dict) -> list:
@@ -225,6 +227,8 @@ def long_run(job) -> list:
                 for ack in (0, 1):
                     msgs.append((n, c, cmd, ack, t, f"p{n}.{c}"))
     msgs += [(n, 255, 3, 0, t, "i") for n in range(0, 60) for t in (0, 6, 11)]
+    # id requests / responses may carry any child id: ordinary traffic for other children comes before and after them
+    msgs += [(n, c, 3, 0, t, "9") for n in (255, 12) for c in (0, 7, 254) for t in (3, 4)]
 
     def bad(k, f, what):
         viols.append((f"C01|long-run-{k}|semicolon=False", f"[{version}] one decoder, {len(msgs)} distinct messages, protocol set again {reset}: message {f}: {what}", {"version": version, "mode": "longrun", "reset": list(reset) if reset else None}))
